@@ -20,4 +20,44 @@ def AEAD.chacha : AEAD where
   xseal := ChaCha.xseal
   xopen := ChaCha.xopen
 
+/-- The functional laws the netcode theorems may assume of the AEAD (no authenticity claim: that is a
+    per-run `NoForgery` hypothesis, never a law).  `MAC = 16` bytes. -/
+structure AEAD.Laws (a : AEAD) : Prop where
+  open_seal : ∀ k n ad p, a.open k n ad (a.seal k n ad p) = some p
+  seal_length : ∀ k n ad p, (a.seal k n ad p).length = p.length + 16
+  open_length : ∀ k n ad c p, a.open k n ad c = some p → p.length + 16 = c.length
+  xopen_xseal : ∀ k n ad p, a.xopen k n ad (a.xseal k n ad p) = some p
+  xseal_length : ∀ k n ad p, (a.xseal k n ad p).length = p.length + 16
+  xopen_length : ∀ k n ad c p, a.xopen k n ad c = some p → p.length + 16 = c.length
+
+/-- A toy instance (identity cipher, constant tag) showing the laws are satisfiable. -/
+def AEAD.toy : AEAD where
+  «seal» _ _ _ p := p ++ List.replicate 16 0
+  «open» _ _ _ c :=
+    if c.length < 16 then none
+    else if c.drop (c.length - 16) = List.replicate 16 0 then some (c.take (c.length - 16)) else none
+  xseal _ _ _ p := p ++ List.replicate 16 0
+  xopen _ _ _ c :=
+    if c.length < 16 then none
+    else if c.drop (c.length - 16) = List.replicate 16 0 then some (c.take (c.length - 16)) else none
+
+theorem AEAD.toy_laws : AEAD.toy.Laws := by
+  have hlen : ∀ (c p : Bytes), (if c.length < 16 then none
+      else if c.drop (c.length - 16) = List.replicate 16 0 then some (c.take (c.length - 16)) else none) = some p →
+      p.length + 16 = c.length := by
+    intro c p h
+    by_cases hc : c.length < 16
+    · simp [hc] at h
+    · simp only [hc, if_false] at h
+      split at h
+      · cases h; simp [List.length_take]; omega
+      · cases h
+  refine ⟨?_, ?_, ?_, ?_, ?_, ?_⟩
+  · intro k n ad p; simp [AEAD.toy]
+  · intro k n ad p; simp [AEAD.toy]
+  · intro k n ad c p h; exact hlen c p h
+  · intro k n ad p; simp [AEAD.toy]
+  · intro k n ad p; simp [AEAD.toy]
+  · intro k n ad c p h; exact hlen c p h
+
 end RenetVerif.Netcode
